@@ -268,7 +268,8 @@ fn eval_real(case: &Sexp) -> Sexp {
     let game = tc::game(rl.game);
     let language = if rl.format == tc::Format::Anm { truth::LanguageKey::Anm } else { truth::LanguageKey::Ecl };
     let maps = vec![real_mapfile(&rl)];
-    let has_anti = lw::contains_head(&stmts, "anti");
+    let has_anti = lw::contains_head(&stmts, "anti")
+        || stmts.iter().any(|s| matches!(s.head(), Some("call") | Some("callblob")) && rl.anti.map_or(false, |op| s.args()[0].as_i64() == op as i64));
     let out = tc::with_truth(rl.format, game, &maps, |truth| {
         let script = truth.parse::<truth::ast::ScriptFile>("<input>", text.as_bytes())?.value;
         let compiled = tc::compile_ast(truth, rl.format, game, &script)?;
@@ -382,8 +383,35 @@ impl Prop for C05 {
             }
             let n = 1 + g.rng.below(4);
             let mut body = g.body(n, 2);
-            if let Some(op) = rl.anti { if g.rng.chance(1, 10) { body.push(Sexp::app("call", if rl.format == tc::Format::Anm { vec![Sexp::int(op as i64)] } else { vec![Sexp::int(op as i64), Sexp::app("i", vec![Sexp::int(1)])] })); } }
+            if let Some(op) = rl.anti { if g.rng.chance(1, 6) {
+                // the scratch-forbidding instruction, written by name-less call or by its raw bytes, anywhere in the body
+                let st = if g.rng.chance(1, 2) { Sexp::app("call", if rl.format == tc::Format::Anm { vec![Sexp::int(op as i64)] } else { vec![Sexp::int(op as i64), Sexp::app("i", vec![Sexp::int(1)])] }) }
+                         else { Sexp::app("callblob", vec![Sexp::int(op as i64), Sexp::atom(if rl.format == tc::Format::Anm { "-" } else { "01000000" })]) };
+                let at = g.rng.below(body.len() + 1);
+                body.insert(at, st);
+            } }
             out.push(Case::search(Sexp::app("real", vec![Sexp::atom(game), Sexp::app("params", params), Sexp::app("body", body)])).tag(format!("real-{game}")));
+        }
+        // search, real languages: pool boundary - exactly as many / one more simultaneously live locals of one
+        // type than the language has general-purpose registers (all used after the last declaration)
+        for game in ["th12", "th14", "th06", "th07", "th08"] {
+            let rl = real_lang(game);
+            for float in [false, true] {
+                let pool = if float { rl.floats.len() } else { rl.ints.len() };
+                for extra in 0..3usize {
+                    let n = pool + extra;
+                    if n == 0 { continue; }
+                    let ty = if float { "f" } else { "i" };
+                    let mut body = vec![];
+                    for k in 0..n {
+                        let init = if float { Sexp::app("f", vec![Sexp::int((k as f32 + 0.5).to_bits() as i64)]) } else { Sexp::app("i", vec![Sexp::int(k as i64)]) };
+                        body.push(Sexp::app("decl", vec![Sexp::atom(ty), Sexp::atom(format!("v{k}")), init]));
+                    }
+                    let sig = if float { lw::plain_opcode("f") } else { lw::plain_opcode("S") };
+                    for k in 0..n { body.push(Sexp::app("call", vec![Sexp::int((sig - lw::OP_PLAIN + REAL_PLAIN_BASE) as i64), Sexp::app("loc", vec![Sexp::atom(format!("v{k}")), Sexp::atom("n")])])); }
+                    out.push(Case::search(Sexp::app("real", vec![Sexp::atom(game), Sexp::app("params", vec![]), Sexp::app("body", body)])).tag(format!("real-{game}-pool-boundary")));
+                }
+            }
         }
         // correspondence with the Lean model: straight-line fragment
         for _ in 0..3000 * scale {
